@@ -86,8 +86,10 @@ func (c *Ctx) replayVerdict(rf *ReplayFile) (bool, string) {
 		}
 		return false, "no map is written by two tasks of this run"
 	case rf.Class == "rerun-differs":
-		a := c.Pool.RunFresh(rf.Spec)
-		b := c.Pool.RunFresh(rf.Spec)
+		a := c.Pool.RunFresh(rf.Spec) // (carries the environment of the second process)
+		plain := cloneSpec(rf.Spec)
+		plain.Env = nil
+		b := c.Pool.RunFresh(plain)
 		if a.EventHash != b.EventHash || outcomeSig(a.op("t")) != outcomeSig(b.op("t")) {
 			return true, fmt.Sprintf("two fresh processes disagree: %s/%s vs %s/%s", a.EventHash, outcomeSig(a.op("t")), b.EventHash, outcomeSig(b.op("t")))
 		}
